@@ -7,7 +7,7 @@ from the source ASTs by the engine.
 """
 import z3
 
-MODULES = ['tcpcl.session', 'tcpcl.messages', 'tcpcl.contact', 'tcpcl.extend', 'tcpcl.formats']
+MODULES = ['tcpcl.session', 'tcpcl.messages', 'tcpcl.contact', 'tcpcl.extend', 'tcpcl.formats', 'tcpcl.config']
 
 U64 = 2 ** 64 - 1
 
@@ -38,7 +38,7 @@ SCHEMAS = {
     'BundleItem': {'pyclass': ('tcpcl.session', 'BundleItem'),
                    'fields': {'transfer_id': 'Opt[Int]', 'total_length': 'Opt[Int]', 'ack_length': 'Int',
                               'file': 'Opt[Ref[BytesIO]]'}},
-    'Config': {'fields': {'enable_test': 'Set[Str]', 'tls_enable': 'Bool', 'require_tls': 'Opt[Bool]',
+    'Config': {'pyclass': ('tcpcl.config', 'Config'), 'fields': {'enable_test': 'Set[Str]', 'tls_enable': 'Bool', 'require_tls': 'Opt[Bool]',
                           'require_host_authn': 'Bool', 'require_node_authn': 'Bool', 'node_id': 'Str',
                           'keepalive_time': 'Int', 'idle_time': 'Int', 'segment_size_mru': 'Int',
                           'segment_size_tx_initial': 'Int', 'modulate_target_ack_time': 'Opt[Int]',
@@ -62,7 +62,7 @@ SCHEMAS = {
                              '_in_conn': 'Bool',
                              '_sessinit_peer': 'Opt[Pkt[SessionInit]]', '_sessinit_this': 'Opt[Pkt[SessionInit]]',
                              '_sess_parameters': 'Dict[Str, ParamVal]', '_in_sess': 'Bool', '_in_sess_func': 'Opt[Func]',
-                             '_in_term': 'Bool', '_in_term_func': 'Opt[Func]', '_tls_attempt': 'Bool', '_is_open': 'Bool',
+                             '_in_term': 'Bool', '_in_term_func': 'Opt[Func]', '_tls_attempt': 'Int', '_is_open': 'Bool',
                              '_Messenger__rx_buf': 'Bytes', '_Messenger__tx_buf': 'Bytes'}},
     'ContactHandler': {'pyclass': ('tcpcl.session', 'ContactHandler'), 'bases': ['Messenger'],
                        'fields': {'object_path': 'Str', '_tx_next_id': 'Int',
@@ -80,7 +80,7 @@ SCHEMAS = {
     'pkt:SessionInit': {'pyclass': ('tcpcl.messages', 'SessionInit'), 'pkt': True,
                         'fields': {'keepalive': 'Int', 'segment_mru': 'Int', 'transfer_mru': 'Int',
                                    'nodeid_length': 'Opt[Int]', 'nodeid_data': 'Str', 'ext_size': 'Opt[Int]',
-                                   'ext_items': 'List[Int]', 'payload': 'Int'}},
+                                   'ext_items': 'List[Pkt[SessionExtendHeader]]', 'payload': 'Int'}},
     'pkt:SessionTerm': {'pyclass': ('tcpcl.messages', 'SessionTerm'), 'pkt': True,
                         'fields': {'flags': 'Int', 'reason': 'Int', 'payload': 'Int'}},
     'pkt:Keepalive': {'pyclass': ('tcpcl.messages', 'Keepalive'), 'pkt': True, 'fields': {'payload': 'Int'}},
@@ -90,12 +90,12 @@ SCHEMAS = {
                            'fields': {'reason': 'Int', 'transfer_id': 'Int', 'payload': 'Int'}},
     'pkt:TransferSegment': {'pyclass': ('tcpcl.messages', 'TransferSegment'), 'pkt': True,
                             'fields': {'flags': 'Int', 'transfer_id': 'Int', 'ext_size': 'Opt[Int]',
-                                       'ext_items': 'List[Int]', 'length': 'Opt[Int]', 'data': 'Bytes',
+                                       'ext_items': 'List[Pkt[TransferExtendHeader]]', 'length': 'Opt[Int]', 'data': 'Bytes',
                                        'payload': 'Int'}},
     'pkt:TransferAck': {'pyclass': ('tcpcl.messages', 'TransferAck'), 'pkt': True,
                         'fields': {'flags': 'Int', 'transfer_id': 'Int', 'length': 'Opt[Int]', 'payload': 'Int'}},
     'pkt:TransferExtendHeader': {'pyclass': ('tcpcl.messages', 'TransferExtendHeader'), 'pkt': True,
-                                 'fields': {'flags': 'Int', 'type': 'Opt[Int]', 'length': 'Opt[Int]', 'payload': 'Int'}},
+                                 'fields': {'flags': 'Int', 'type': 'Opt[Int]', 'length': 'Opt[Int]', 'payload': 'Int', '_pcls': 'Int'}},
     'pkt:SessionExtendHeader': {'pyclass': ('tcpcl.messages', 'SessionExtendHeader'), 'pkt': True,
                                 'fields': {'flags': 'Int', 'type': 'Opt[Int]', 'length': 'Opt[Int]', 'payload': 'Int'}},
     'pkt:TransferTotalLength': {'pyclass': ('tcpcl.extend', 'TransferTotalLength'), 'pkt': True,
@@ -106,66 +106,25 @@ SCHEMAS = {
                                 'fields': {'largeval': 'Int', 'smallval': 'Int', 'payload': 'Int'}},
 }
 
+
 GHOST = {
     # glib sources: armed ids, their delay (ms) and callback tag
     'src_armed': 'Set[Int]',
     'src_delay': 'Dict[Int, Int]',
     'src_cb': 'Dict[Int, Int]',
-    # protocol events handed to send_message, in order
+    # protocol events handed to send_message, in order; and their encodings concatenated
     'trace': 'List[Event]',
+    'enc_stream': 'Bytes',
+    # octets accepted by sock.send so far
+    'wire_out': 'Bytes',
     # D-Bus signals emitted, in order
     'signals': 'List[Signal]',
-    'closed': 'Bool',
+    # RFC 9174 output automaton of this endpoint
+    'ch_sent': 'Bool', 'si_sent': 'Bool', 'term_sent': 'Bool',
+    'cur_xid': 'Opt[Int]', 'started': 'Set[Int]',
+    # what the peer has sent (input automaton): everything so far legal?, last segment, cumulative length
+    'peer_legal': 'Bool', 'rx_have_last': 'Bool', 'rx_last_id': 'Int', 'rx_last_flags': 'Int', 'rx_cum': 'Int',
+    'rx_ids_seen': 'Set[Int]',
+    # transfer ids that got a send_bundle_finished signal
+    'tx_finished': 'Set[Int]',
 }
-
-INLINE = [
-    'tcpcl.session:ContactHandler.next_id',
-    'tcpcl.session:ContactHandler._rx_teardown',
-    'tcpcl.session:Messenger._keepalive_stop',
-    'tcpcl.session:Messenger._idle_stop',
-    'tcpcl.session:ContactHandler._process_queue_trigger',
-    'tcpcl.session:Connection.is_secure',
-    'tcpcl.session:Connection.get_app_socket',
-    'tcpcl.session:Connection.get_secure_socket',
-    'tcpcl.session:Messenger.is_sess_idle',
-    'tcpcl.session:Messenger.recv_sess_term',
-    'tcpcl.session:Messenger.recv_xfer_data',
-    'tcpcl.session:Messenger.recv_xfer_ack',
-    'tcpcl.session:Messenger.recv_xfer_refuse',
-    'tcpcl.session:Messenger._update_state',
-    'tcpcl.session:Connection._conn_name',
-]
-
-FUNCS = {}
-
-from pyvc import extmodels
-EXTERNS = {}
-EXTERNS.update(extmodels.GLIB)
-EXTERNS.update(extmodels.MISC)
-
-TIMER_MODS = ['ghost.src_armed', 'ghost.src_delay', 'ghost.src_cb']
-
-FUNCS.update({
-    'tcpcl.session:Messenger._keepalive_reset': dict(
-        self='Ref[ContactHandler]', props=['C14'],
-        modifies=['Messenger._keepalive_timer_id'] + TIMER_MODS,
-        ensures=[
-            ('armed_iff_positive', 'iff(self._keepalive_time > 0, self._keepalive_timer_id is not None)'),
-            ('armed_source', 'implies(self._keepalive_time > 0, '
-                             'contains(ghost.src_armed, unwrap(self._keepalive_timer_id)) and '
-                             'lookup(ghost.src_delay, unwrap(self._keepalive_timer_id)) == 1000 * self._keepalive_time and '
-                             'lookup(ghost.src_cb, unwrap(self._keepalive_timer_id)) == cbtag("_keepalive_timeout"))'),
-        ],
-    ),
-    'tcpcl.session:Messenger._idle_reset': dict(
-        self='Ref[ContactHandler]', props=['C14'],
-        modifies=['Messenger._idle_timer_id'] + TIMER_MODS,
-        ensures=[
-            ('armed_iff_positive', 'iff(self._idle_time > 0, self._idle_timer_id is not None)'),
-            ('armed_source', 'implies(self._idle_time > 0, '
-                             'contains(ghost.src_armed, unwrap(self._idle_timer_id)) and '
-                             'lookup(ghost.src_delay, unwrap(self._idle_timer_id)) == 1000 * self._idle_time and '
-                             'lookup(ghost.src_cb, unwrap(self._idle_timer_id)) == cbtag("_idle_timeout"))'),
-        ],
-    ),
-})
